@@ -251,3 +251,10 @@ def run(ctx: Ctx, rep: Report, tier: str):
     from rules.common import uploads_read_the_changed_sides_download
     rep.rule("C02.R13", "the peer is overwritten / created with the changed side's current bytes (C03.R12), never with the synced side's own temp file or a stale download", 5)
     uploads_read_the_changed_sides_download(ctx, rep, "C02.R13")
+    from rules.common import resolution_bookkeeping
+    rep.rule("C02.R14", "the version that lost a conflict and was kept as .conflicted is safe from stale events: its entry is flagged CONFLICT and its other half cleared (C05.V17)", 10)
+    resolution_bookkeeping(ctx, rep, "C02.R14")
+    from rules.common import content_first_deferral
+    rep.rule("C02.R15", "an edit wins over a concurrent path change: in sync() a side with unchanged content yields to the other side's pending content change unconditionally, "
+             "so the newer bytes are transferred before a rename / move-out of this side is acted on", 1)
+    content_first_deferral(ctx, rep, "C02.R15")
